@@ -31,6 +31,11 @@ var c16Files = Files{
 	"s2.vuego": `<div><slot></slot></div><section><slot></slot></section>`,
 	"sf.vuego": `<ul><li v-for="i in three"><slot></slot></li></ul>`,
 
+	"n1.vuego":                 `<section>x</section><div v-once><u>N1W</u><style v-once>N1S</style></div>`,
+	"n2.vuego":                 `<span>y</span><div v-once><u>N2W</u><script v-once>N2S</script></div>`,
+	"p_nest.vuego":             `<div v-once><u>OW</u><b v-once>ON</b></div><i v-once>O1</i>`,
+	"p_nestfor.vuego":          `<div v-for="i in three"><div v-once><u>OW</u><p><b v-once>ON</b></p></div><i v-once>O1</i></div>`,
+	"p_nestcomp.vuego":         `<div v-for="i in three"><template include="n1.vuego"></template><template include="n2.vuego"></template></div><template include="n1.vuego"></template>`,
 	"p_top.vuego":              `<b v-once>O1</b><p>x</p><b v-once>O2</b><b v-once>O3</b>`,
 	"p_for.vuego":              `<div v-for="i in three"><b v-once>O1</b><i>{{ i }}</i><u v-once>O2</u></div>`,
 	"p_forself.vuego":          `<b v-for="i in three" v-once>O1</b><i v-for="j in three">I</i>`,
@@ -63,6 +68,9 @@ var c16Progs = []c16Prog{
 	{"slot2", "p_slot2.vuego", map[string]int{"OS": 1}, nil},
 	{"slotfor", "p_slotfor.vuego", map[string]int{"OS": 1}, nil},
 	{"if", "p_if.vuego", map[string]int{"O1": 1, "O2": 0, "O3": 1}, nil},
+	{"nest", "p_nest.vuego", map[string]int{"OW": 1, "ON": 1, "O1": 1}, nil},
+	{"nestfor", "p_nestfor.vuego", map[string]int{"OW": 1, "ON": 1, "O1": 1}, nil},
+	{"nestcomp", "p_nestcomp.vuego", map[string]int{"N1W": 1, "N1S": 1, "N2W": 1, "N2S": 1}, nil},
 	{"lay", "p_lay.vuego", map[string]int{"O1": 1, "OA": 1}, map[string]int{"OL": 1, "OL2": 1, "OO": 1, "OA": 2}},
 }
 
@@ -82,7 +90,7 @@ type c16Case struct {
 
 func (c *c16Case) Key() string { return core.KeyOf(c) }
 
-var c16Markers = []string{"O1", "O2", "O3", "OA", "OB2", "OB", "OC", "OAC", "OS", "OL2", "OL", "OO"}
+var c16Markers = []string{"OW", "ON", "N1W", "N1S", "N2W", "N2S", "O1", "O2", "O3", "OA", "OB2", "OB", "OC", "OAC", "OS", "OL2", "OL", "OO"}
 
 func c16Count(out string) map[string]int {
 	m := map[string]int{}
@@ -161,7 +169,7 @@ func init() {
 	core.Register(&core.Check{
 		ID:    "C16",
 		Level: "model_checking",
-		Rule: "14 placements of 1-4 v-once elements (top level, inside v-for, on the looped element itself, in a component included 1..3 times, in two different components, in a component included from a loop, nested components, slot content used once / twice / in a loop, v-if branches, page + two layouts each including the same component) x 7 entry points (Load+Render, RenderFile, Vue.Render, Vue.RenderFragment, RenderString/Byte/Reader) x every history of <=L renders on one long-lived engine; " +
+		Rule: "17 placements of 1-4 v-once elements (v-once nested inside v-once at top level, in a loop and in two components included from a loop, top level, inside v-for, on the looped element itself, in a component included 1..3 times, in two different components, in a component included from a loop, nested components, slot content used once / twice / in a loop, v-if branches, page + two layouts each including the same component) x 7 entry points (Load+Render, RenderFile, Vue.Render, Vue.RenderFragment, RenderString/Byte/Reader) x every history of <=L renders on one long-lived engine; " +
 			"oracle: every marked source element occurs exactly once per render (per link of a layout chain), unreached ones zero times. states = renders checked; non-trivial = all",
 		Bounds:      map[string]string{"quick": "L=2 (all ordered pairs of programs)", "thorough": "L=3 (all ordered triples)"},
 		Assumptions: []string{"markers are counted textually as >MARK< in the output"},
